@@ -30,3 +30,11 @@ Theorem C04_safe_render_urls : forall c src t o, unsafe c = false -> wf_tree src
   RenderHTML c src t = Ok o -> Inert o.
 Proof. exact RenderHTML_safe_inert. Qed.
 Print Assumptions C04_safe_render_urls.
+
+(* the whole pipeline for the default parser (see props/C03.v, Part 3): every href / src value of
+   the safe-mode output of the Convert model is free of the dangerous schemes (the URL clause is
+   part of Inert's attribute grammar, HtmlSpec.AttrOut) *)
+Require Import GM.model.ParseI GM.model.ParseChecked GM.proofs.ParseCheckedProofs.
+Theorem C04_convert_safe_urls : forall c src o, unsafe c = false -> ConvertModelC c src = Ok o -> Inert o.
+Proof. exact ConvertModelC_safe_inert. Qed.
+Print Assumptions C04_convert_safe_urls.
